@@ -19,6 +19,9 @@ def _mentions(node, names):
     return any(isinstance(n, ast.Name) and n.id in names for n in ast.walk(node))
 
 
+_RESOLVER = [None]      # set by _refuses_nan: call node -> (return expression of the callee, tainted parameter names) or None
+
+
 def nan_value(test, names, temps=None, depth=0):
     """True / False / None (unknown) of `test` when every name in `names` holds a NaN.
     temps: local name -> the one expression assigned to it (a guard kept in a temporary is looked through)"""
@@ -61,6 +64,12 @@ def nan_value(test, names, temps=None, depth=0):
                 return True
             if fn == 'isfinite':
                 return False
+        # a predicate of the repository (def _is_valid(x): return x >= 0): evaluate its return expression
+        if _RESOLVER[0] is not None and depth < 4:
+            r = _RESOLVER[0](test, names)
+            if r is not None:
+                expr, pnames = r
+                return nan_value(expr, pnames, {}, depth + 1)
     return None
 
 
@@ -107,6 +116,31 @@ def _refuses_nan(repo, f, param, depth=0):
     """(verdict, [guards seen as text])"""
     names = _tainted(f.node, {param})
     seen = []
+
+    def resolver(call, tainted):
+        fnode = call.func
+        target = None
+        skip_self = False
+        if isinstance(fnode, ast.Name):
+            r = repo.resolve_name(f.module, fnode.id)
+            if r and r[0] == 'func':
+                target = r[1]
+        elif isinstance(fnode, ast.Attribute) and isinstance(fnode.value, ast.Name) and fnode.value.id in ('self', 'cls') and f.cls is not None:
+            target = f.cls.lookup(fnode.attr)
+            skip_self = True
+        if target is None:
+            return None
+        body = [s_ for s_ in target.node.body if not (isinstance(s_, ast.Expr) and isinstance(s_.value, ast.Constant))]
+        if len(body) != 1 or not isinstance(body[0], ast.Return) or body[0].value is None:
+            return None
+        ps = list(target.params)
+        if skip_self and ps and ps[0] in ('self', 'cls'):
+            ps = ps[1:]
+        pn = {ps[i] for i, a in enumerate(call.args) if i < len(ps) and _mentions(a, tainted)}
+        if not pn:
+            return None
+        return body[0].value, pn
+    _RESOLVER[0] = resolver
     # boolean temporaries: names assigned exactly once from an expression that mentions the value
     count, temps = {}, {}
     for n in walk_local(f.node):
